@@ -16,7 +16,8 @@ def run(ctx):
     rng = random.Random(ctx.seed)
     progs = ['main:new2,fq1,sched2,bulk3.2,del', 'main:new0,fq1,sched2,bulk3.2,del',
              'main:new2,up,fq1,sched2,sync,del;p2:up,fq5,bulk6.2', 'main:new1,wake0,fq1,bulk2.3,del']
-    progs += pc.random_programs(rng, 10 if thorough else 2, ['fq', 'sched', 'bulk'])
+    progs += ['main:new2,up,placed1,pfq2,sched3,sync,del;p2:up,pfq5,placed6,fq7']
+    progs += pc.random_programs(rng, 10 if thorough else 2, ['fq', 'sched', 'bulk', 'placed', 'pfq'])
     n = 30 if thorough else 6
     tr = None
     for i, p in enumerate(progs):
